@@ -45,6 +45,76 @@ class C13(CtxCheck):
                 uniq.append(h)
         return uniq
 
+    # ---- scenario units (deterministic, outside the BFS) ---------------------------------------------------
+    def units(self, tier: str, seed: int) -> list:
+        return super().units(tier, seed) + [{"orphan": kind, "gc": g} for kind in ("root", "nested") for g in (False, True)]
+
+    def work(self, unit: dict, tier: str) -> dict:
+        if "orphan" in unit:
+            return self.orphan_unit(unit)
+        return super().work(unit, tier)
+
+    def replay(self, rec: dict):  # type: ignore[no-untyped-def]
+        if "orphan" in rec.get("program", {}):
+            s = self.orphan_unit(rec["program"])
+            for v in s["violations"]:
+                for f in v["fails"]:
+                    print("FAIL", f[0], "-", f[1])
+            print(f"VIOLATION property=C13 replay={rec.get('_path', '')}" if s["violations"] else "no violation on this tree")
+            return 1 if s["violations"] else 0
+        return super().replay(rec)
+
+    def orphan_unit(self, unit: dict) -> dict:
+        """A child context is entered from the parent by a short-lived task that ends without leaving it; nothing else refers to the
+        child (optionally a garbage collection runs); leaving the parent must still be reported as an error."""
+        import gc
+
+        import anyio
+
+        from ..explore import new_summary
+
+        fails: list = []
+
+        async def main() -> None:
+            from asphalt.core import Context
+
+            async def enter_and_forget() -> None:
+                child = Context()
+                await child.__aenter__()
+
+            async def parent_block() -> None:
+                async with Context():
+                    async with anyio.create_task_group() as tg:
+                        tg.start_soon(enter_and_forget)
+                    if unit["gc"]:
+                        gc.collect()
+
+            try:
+                if unit["orphan"] == "nested":
+                    async with Context():
+                        try:
+                            await parent_block()
+                            fails.append(("lifecycle", "a context was left while a child entered from it (by a task that has ended) was still open: no error"))
+                        except RuntimeError:
+                            pass
+                else:
+                    await parent_block()
+                    fails.append(("lifecycle", "a root context was left while a child entered from it (by a task that has ended) was still open: no error"))
+            except RuntimeError:
+                pass
+            except BaseException as e:  # noqa: BLE001
+                if not (isinstance(e, BaseExceptionGroup) and e.subgroup(RuntimeError) is not None):
+                    fails.append(("lifecycle", f"leaving the parent of a still open child raised {e!r} instead of RuntimeError"))
+
+        anyio.run(main)
+        s = new_summary()
+        s["evaluations"] = s["transitions"] = s["states"] = s["distinct"] = s["nontrivial"] = 1
+        s["outcomes"] = {"done": 1}
+        if fails:
+            s["violations"].append({"keys": ["lifecycle"], "fails": [list(f) for f in fails], "program": dict(unit), "choices": [], "trace": [], "outcome": "done"})
+            s["keyhist"] = {"lifecycle": 1}
+        return s
+
     def api_ops(self, u: Universe, idx: int) -> list[tuple]:
         n = len(u.hist)
         return [
